@@ -5,8 +5,8 @@ package p09
 // (counted with vlib.Excluded) so that the search continues behind a confirmed defect.
 // Setting an entry to false (or VERIF_C09_NOEXCLUDE=<sig>[,<sig>]|all) switches the exclusion off.
 var knownOpen = map[string]bool{
-	"two-rollouts-one-workload-apiversion-spelling":         true,
-	"v1alpha1-progressing-step-count-changed":               true,
+	"two-rollouts-one-workload-apiversion-spelling":         false, // repaired by a "fix:" commit in /repo, see /verif/known_findings.json
+	"v1alpha1-progressing-step-count-changed":               false, // repaired by a "fix:" commit in /repo, see /verif/known_findings.json
 	"handle-panic-validating.GetContextFromv1alpha1Rollout": true,
 	"v1alpha1-conflict-check-blind-to-bluegreen":            true,
 	"v1alpha1-update-of-bluegreen-unguarded":                true,
